@@ -131,6 +131,10 @@ def dump_scalar(scalar, version=LATEST_VER):
     elif isinstance(scalar, Bin):
         return dump_bin(scalar, version=version)
     elif isinstance(scalar, XStr):
+        if pre_3_0(version):
+            raise ValueError('Project Haystack version %s ' \
+                             'does not support XStr' \
+                             % version)
         return dump_xstr(scalar, version=version)
     elif isinstance(scalar, Uri):
         return dump_uri(scalar, version=version)
@@ -151,6 +155,10 @@ def dump_scalar(scalar, version=LATEST_VER):
             isinstance(scalar, int):
         return dump_decimal(scalar, version=version)
     elif isinstance(scalar, Grid):
+        if pre_3_0(version):
+            raise ValueError('Project Haystack version %s ' \
+                             'does not support nested grids' \
+                             % version)
         return "<<" + dump_grid(scalar) + ">>"
     else:
         raise NotImplementedError('Unhandled case: %r' % scalar)
